@@ -89,16 +89,18 @@ def parse_sweep(tier, seed=0):
                         msg = f"parse_bytes({s!r}) raised {type(e).__name__}: {e}"
                     if msg and len(fails) < 6:
                         fails.append(rtc.Failure("parse_bytes", {"s": s}, "ensures", "C18-units-any-case", msg))
+    tnums = nums + ["2.5", "0.4", "0.1234", "12.3456", "1.23456789012", "234.6", "0.000123"]
     for u, mult in TIME_UNITS.items():
         for cu in casings(u):
-            for num in nums:
+            for num in tnums:
                 for sep in ("", " "):
                     cases += 1
                     s = f"{num}{sep}{cu}"
                     try:
                         got = parse_timedelta(s)
                         want = float(num) * mult
-                        msg = None if abs(got - want) <= 1e-9 * max(1, abs(want)) else f"parse_timedelta({s!r}) = {got}, documented multiplier {mult} gives {want}"
+                        # relative tolerance only (float noise): an absolute 1e-9 would hide errors in sub-nanosecond products
+                        msg = None if abs(got - want) <= 1e-12 * abs(want) else f"parse_timedelta({s!r}) = {got}, documented multiplier {mult} gives {want}"
                     except Exception as e:  # noqa
                         msg = f"parse_timedelta({s!r}) raised {type(e).__name__}: {e}"
                     if msg and len(fails) < 12:
